@@ -95,16 +95,21 @@ func runC05(c *vlib.Ctx) {
 	if !c.Thorough() {
 		triples = triples[:3]
 	}
+	// One repo per (shape, keys, pattern of key 1, pattern of key 2) holding one instance per pattern of key 3: every
+	// instance creation re-saves the whole repo blob, so repos are kept small (a repo with np^2 instances made the
+	// thorough tier write tens of GiB of value log).
 	type job struct {
-		sh c05Shape
-		t  [3]string
-		p1 int
+		sh     c05Shape
+		t      [3]string
+		p1, p2 int
 	}
 	var jobs []job
 	for _, sh := range c05Shapes(c.Thorough()) {
 		for _, t := range triples {
 			for p1 := range sh.patterns {
-				jobs = append(jobs, job{sh, t, p1})
+				for p2 := range sh.patterns {
+					jobs = append(jobs, job{sh, t, p1, p2})
+				}
 			}
 		}
 	}
@@ -113,11 +118,9 @@ func runC05(c *vlib.Ctx) {
 		j := jobs[ji]
 		np := len(j.sh.patterns)
 		var insts []*kvInst
-		for p2 := 0; p2 < np; p2++ {
-			for p3 := 0; p3 < np; p3++ {
-				insts = append(insts, &kvInst{name: fmt.Sprintf("w%d_%d", p2, p3), keys: j.t[:],
-					patterns: []kvPattern{j.sh.patterns[j.p1], j.sh.patterns[p2], j.sh.patterns[p3]}})
-			}
+		for p3 := 0; p3 < np; p3++ {
+			insts = append(insts, &kvInst{name: fmt.Sprintf("w%d_%d", j.p2, p3), keys: j.t[:],
+				patterns: []kvPattern{j.sh.patterns[j.p1], j.sh.patterns[j.p2], j.sh.patterns[p3]}})
 		}
 		r, err := buildKVRepo(j.sh.spec, insts)
 		if r != nil {
@@ -211,8 +214,26 @@ func c05World(c *vlib.Ctx, sh c05Shape, r *kvRepo, in *kvInst, doDelete bool) {
 		// keyvalues (multi point read) in its three formats
 		c05KeyValues(c, uuid, in, pts)
 	}
-	if doDelete {
+	if doDelete && !c.Thorough() {
 		c05DeleteRange(c, sh, r, in, db, data, ends)
+	}
+	if doDelete && c.Thorough() {
+		// thorough deletes in every world, and every child version re-saves the repo blob (bytes written grow with the
+		// square of the node count), so the ~65 child versions of one world get a repo of their own
+		r1, err := buildKVRepo(sh.spec, []*kvInst{in})
+		if r1 != nil {
+			defer r1.drop()
+		}
+		if err != nil {
+			c.Violate("harness:build", fmt.Sprintf("%s %v: %v", sh.name, in.keys, err), nil)
+			return
+		}
+		data1, db1, err := kvData(r1.uuids[0], in.name)
+		if err != nil {
+			c.Violate("harness:data", err.Error(), nil)
+			return
+		}
+		c05DeleteRange(c, sh, r1, in, db1, data1, ends)
 	}
 }
 
@@ -593,7 +614,7 @@ func c05DeleteRange(c *vlib.Ctx, sh c05Shape, r *kvRepo, in *kvInst, db storage.
 			}
 		}
 		checkAt("version", child)
-		if pi%5 == 0 || c.Thorough() {
+		if pi%5 == 0 || lo == ends[0] && hi == ends[len(ends)-1] {
 			vsrv.Commit(child)
 			gc, err := vsrv.NewVersion(child)
 			if err == nil {
